@@ -94,3 +94,29 @@ def run(chk):
                        "output is produced only by the strategy sink, once per element, on the sub-view carrying the element's own index; "
                        "shapes are query dims ++ trailing dims; allocating variants return the array they filled; interp_scalar returns "
                        "element 0 of the buffer the sink wrote. Result types are pinned by compile-time witnesses." % len(runs))
+
+
+def query_delivery(chk, lib, rule, lead):
+    """The kernel identities of C01 / C04 speak about 'the query': every entry point of the %d-D interpolator must hand the strategy the unmodified query value(s)
+    of ONE element - for the array entry points the values of all query arrays at the same logical index, written to the sub-view of that index (round 8: a 2-D batch
+    loop that read y from `ys.as_slice_memory_order()` by enumeration count paired x[i] with another element's y)."""
+    n = 0
+    for r in all_runs(lib):
+        if r.lead != lead or r.scn.get('sink') != 'ok' or not r.scn.get('shape_ok', True) or not r.scn.get('qshape_ok', True):
+            continue
+        key = 'delivery-%dd-%s-%s' % (r.lead, r.name, ','.join('%s=%s' % kv for kv in sorted(r.scn.items())))
+        if r.outcome == 'unsupported':
+            chk.ob(rule, "entry point %s is within the reviewed surface: %s" % (key, r.exc), False, r.exc.where if r.exc else '', key + '-unrecognised')
+            continue
+        if r.outcome == 'panic' or not r.m.sinks:
+            continue
+        n += 1
+        s = r.m.sinks[0]
+        want_q = ['qx', 'qy'][:r.lead] if r.name in ('interp_scalar', 'interp', 'interp_into') else ['xs[e]', 'ys[e]'][:r.lead]
+        chk.ob(rule, "%s: the strategy receives the unmodified query value(s) %s of one element (got %s)" % (key, want_q, s['queries']),
+               s['queries'] == want_q, s['where'], key + '-query')
+        if r.name in ('interp_array', 'interp_array_into'):
+            lead_ = s['target'].d.get('lead')
+            chk.ob(rule, "%s: the result of that element goes to the sub-view with the same index (%s)" % (key, lead_),
+                   lead_ == ('axis0[e]' if r.scn['fast'] else 'qidx'), s['where'], key + '-pairing')
+    return n
